@@ -146,8 +146,12 @@ def sameContract (f n : Rev) : Bool :=
 so that moving a function to another file of its package is not a difference -/
 def pkgOf (file : String) : String := "/".intercalate ((file.splitOn "/").dropLast)
 
-/-- `signsites list=[file:fn:n,…]`: the functions of rhp/v2, rhp/v3 that call `SignHash`, read from the
-source tree, against the model's table `signingSites` (compared per package and function) -/
+/-- `signsites list=[file:fn:n,…] edges=[pkg:caller>callee,…]`: the functions of rhp/v2, rhp/v3 that call
+`SignHash` and the call edges of the package through which a signing function is reached, read from
+the source tree, against the model's table `signingSites`.  The tie is per package and function, and
+it follows helpers: a function that signs but is not in the table is attributed to its callers — it
+is a difference only if some chain of callers ends in a function outside the table; a table function
+is present if it signs itself or reaches a signing function. -/
 def signSitesStep (d : DState) (l : Line) : DState × List Verdict :=
   match getStrList l.obs "list" with
   | none => (d, [.badline "signsites list"])
@@ -155,14 +159,35 @@ def signSitesStep (d : DState) (l : Line) : DState × List Verdict :=
     let parsed := items.map fun it => match it.splitOn ":" with
       | [file, fn, n] => (pkgOf file, fn, n.toNat?.getD 0)
       | _ => (it, "", 0)
-    let modelCount (pkg fn : String) : Nat := (signingSites.filter fun i => pkgOf i.file == pkg && i.fn == fn).length
-    let implCount (pkg fn : String) : Nat := (parsed.filter fun (p, f, _) => p == pkg && f == fn).foldl (fun a x => a + x.2.2) 0
-    let extra : List Verdict := parsed.filterMap fun (pkg, fn, _) =>
-      if modelCount pkg fn == implCount pkg fn then none
-      else some (.mismatch s!"signsites/{pkg}:{fn}" (toString (modelCount pkg fn)) (toString (implCount pkg fn)))
+    let edges : List (String × String × String) := ((getStrList l.obs "edges").getD []).filterMap fun e =>
+      match e.splitOn ":" with
+      | [pkg, cc] => (match cc.splitOn ">" with
+          | [caller, callee] => some (pkg, caller, callee)
+          | _ => none)
+      | _ => none
+    let inTable (pkg fn : String) : Bool := signingSites.any fun i => pkgOf i.file == pkg && i.fn == fn
+    let signs (pkg fn : String) : Bool := parsed.any fun (p, f, _) => p == pkg && f == fn
+    let callersOf (pkg fn : String) : List String := (edges.filter fun (p, _, callee) => p == pkg && callee == fn).map (·.2.1)
+    let calleesOf (pkg fn : String) : List String := (edges.filter fun (p, caller, _) => p == pkg && caller == fn).map (·.2.2)
+    -- covered: in the table, or it has callers and every caller is covered
+    let rec covered (fuel : Nat) (pkg fn : String) : Bool :=
+      match fuel with
+      | 0 => false
+      | fuel + 1 =>
+        inTable pkg fn ||
+          (let cs := callersOf pkg fn
+           !cs.isEmpty && cs.all fun c => covered fuel pkg c)
+    -- reachesSign: signs itself or calls (transitively) a function that does
+    let rec reachesSign (fuel : Nat) (pkg fn : String) : Bool :=
+      match fuel with
+      | 0 => false
+      | fuel + 1 => signs pkg fn || (calleesOf pkg fn).any fun c => reachesSign fuel pkg c
+    let extra : List Verdict := parsed.filterMap fun (pkg, fn, n) =>
+      if covered 6 pkg fn then none
+      else some (.mismatch s!"signsites/{pkg}:{fn}" "0" (toString n))
     let missing : List Verdict := signingSites.filterMap fun i =>
-      if parsed.any (fun (pkg, fn, _) => pkg == pkgOf i.file && fn == i.fn) then none
-      else some (.mismatch s!"signsites/{pkgOf i.file}:{i.fn}" (toString (modelCount (pkgOf i.file) i.fn)) "0")
+      if reachesSign 6 (pkgOf i.file) i.fn then none
+      else some (.mismatch s!"signsites/{pkgOf i.file}:{i.fn}" "1" "0")
     (d, extra ++ missing)
 
 
